@@ -311,6 +311,12 @@ func (OracleC07) sharesWithin(x *Exec, pre, post *Snap, d DelSnap, pk posKey, to
 		sAfter = decRat(sAfterDec)
 	}
 	full := decRat(d.Shares)
+	if vt.Sign() <= 0 || pre.ValTokens(pk.T, pk.Denom).Sign() <= 0 {
+		// the destination validator's stake in the asset is worth nothing (it was slashed away): the
+		// position "still holds" nothing, so the cap of the specification leaves only removed <= held
+		x.Label("c07:destination-validator-worthless")
+		return removed.Cmp(full) <= 0
+	}
 	if sd, ok := post.Vals[pk.T].DelShares[pk.Denom]; !ok || sd.TruncateInt().IsZero() {
 		// the destination's total delegator shares fell below one share during this callback: from
 		// then on the module prices removals 1:1 (its own "no shares yet" convention) — the
